@@ -427,4 +427,267 @@ theorem releaseOp_inv (s : St) (k n : Nat) (hi : InvG (some (k, n)) none s) : In
   simp only [hp, hb, and_self, if_true]
   exact cleanAll_inv _ _ (hostRelease_inv s k n hi)
 
+/-- `CancelledError` delivered to a waiter (repaired code): wake-up passed on, waiter count undone,
+idle host pool dropped. -/
+theorem cancelWait_inv (s : St) (t k : Nat) (hi : Inv s) (hpc : s.pc t = .cwait k) :
+    Inv (cancelWait { s with creq := upd s.creq t false } t k) := by
+  obtain ⟨mpos, noerr, count_le, busy_nodup, ready_nodup, disjoint, lt_next, hold_busy, rel_busy, hold_inj,
+    rel_inj, hold_rel, busy_owned, orphan, rel_ge, cond_pc, pc_cond, cond_nodup, waiters_eq, notif, kept,
+    absent, acq_present⟩ := hi
+  obtain ⟨bt, hbt⟩ := pc_cond t k hpc
+  have h1 := countP_dropTask (s.host k).cond t (cond_nodup k)
+  have h2 := length_dropTask (s.host k).cond t (cond_nodup k) ⟨bt, hbt⟩
+  have h3 := dropTask_nodup t (s.host k).cond (cond_nodup k)
+  have h4 := mem_dropTask t (s.host k).cond
+  have n1 := notify_map_fst (upd s.creq t false) (dropTask t (s.host k).cond)
+  have n2 := notify_length (upd s.creq t false) (dropTask t (s.host k).cond)
+  have n3 := mem_notify (upd s.creq t false) (dropTask t (s.host k).cond)
+  have n4 := mem_notify_fst (upd s.creq t false) (dropTask t (s.host k).cond)
+  have n5 := live_notify (upd s.creq t false) (dropTask t (s.host k).cond)
+  have n6 := countP_notify_ge (upd s.creq t false) (dropTask t (s.host k).cond)
+  have n7 := countP_notify_live (upd s.creq t false) (dropTask t (s.host k).cond)
+  have hlk : live (upd s.creq t false) (dropTask t (s.host k).cond) → live s.creq (s.host k).cond := by
+    rintro ⟨u, hm, hc⟩
+    have := (h4 (u, false)).mp hm
+    exact ⟨u, this.1, by simpa [upd, this.2] using hc⟩
+  have hlo : ∀ k', k' ≠ k → live (upd s.creq t false) (s.host k').cond → live s.creq (s.host k').cond := by
+    rintro k' hk ⟨u, hm, hc⟩
+    have : u ≠ t := by
+      intro h; subst h; have := cond_pc k' u false hm; rw [hpc] at this; cases this; exact hk rfl
+    exact ⟨u, hm, by simpa [upd, this] using hc⟩
+  unfold cancelWait
+  simp only [setHost]
+  split
+  · constructor
+    all_goals try assumption
+    all_goals try (simp only [upd, hostEmptyIdle] at *; grind)
+  · constructor
+    all_goals try assumption
+    all_goals try (simp only [upd, hostEmptyIdle] at *; grind)
+    · intro u k1 h
+      simp only [upd] at h ⊢
+      have hne : u ≠ t := by
+        intro e; simp [e] at h
+      simp only [if_neg hne] at h
+      obtain ⟨b, hb⟩ := pc_cond u k1 h
+      by_cases hk : k1 = k
+      · subst hk
+        simp only [if_true]
+        exact (n4 u).mpr ⟨b, (h4 (u, b)).mpr ⟨hb, hne⟩⟩
+      · simp only [if_neg hk]; exact ⟨b, hb⟩
+
+/-- fields the invariant does not mention may change freely -/
+theorem frame_inv (o : Option (Nat × Nat)) (a : Option Nat) (s s' : St) (hi : InvG o a s)
+    (e1 : s'.M = s.M) (e2 : s'.err = s.err) (e3 : s'.host = s.host) (e4 : s'.pc = s.pc)
+    (e5 : s'.relDone = s.relDone) (e6 : s'.relConn = s.relConn) (e7 : s'.nrels = s.nrels)
+    (e8 : s'.present = s.present) (e9 : s'.creq = s.creq) : InvG o a s' := by
+  obtain ⟨mpos, noerr, count_le, busy_nodup, ready_nodup, disjoint, lt_next, hold_busy, rel_busy, hold_inj,
+    rel_inj, hold_rel, busy_owned, orphan, rel_ge, cond_pc, pc_cond, cond_nodup, waiters_eq, notif, kept,
+    absent, acq_present⟩ := hi
+  constructor
+  all_goals simp only [e1, e2, e3, e4, e5, e6, e7, e8, e9]
+  all_goals assumption
+
+def neutral (x : PC) : Prop := x = .start ∨ x = .done ∨ x = .cancelled ∨ ∃ r, x = .drain r
+
+/-- a client that neither holds nor waits changes its program counter to another such value -/
+theorem neutral_inv (s s' : St) (t : Nat) (x : PC) (hi : Inv s) (hpc : neutral (s.pc t)) (hx : neutral x)
+    (e1 : s'.M = s.M) (e2 : s'.err = s.err) (e3 : s'.host = s.host) (e4 : s'.pc = upd s.pc t x)
+    (e5 : s'.relDone = s.relDone) (e6 : s'.relConn = s.relConn) (e7 : s'.nrels = s.nrels)
+    (e8 : s'.present = s.present) (e9 : ∀ u, u ≠ t → s'.creq u = s.creq u) : Inv s' := by
+  obtain ⟨mpos, noerr, count_le, busy_nodup, ready_nodup, disjoint, lt_next, hold_busy, rel_busy, hold_inj,
+    rel_inj, hold_rel, busy_owned, orphan, rel_ge, cond_pc, pc_cond, cond_nodup, waiters_eq, notif, kept,
+    absent, acq_present⟩ := hi
+  have hl : ∀ k, live s'.creq (s.host k).cond → live s.creq (s.host k).cond := by
+    intro k' ⟨u, hm, hc⟩
+    refine ⟨u, hm, ?_⟩
+    have : u ≠ t := by
+      intro h; subst h; have := cond_pc k' u false hm
+      rw [this] at hpc
+      rcases hpc with h | h | h | ⟨r, h⟩ <;> cases h
+    rw [← e9 u this]; exact hc
+  constructor
+  all_goals simp only [e1, e2, e3, e4, e5, e6, e7, e8]
+  all_goals try assumption
+  all_goals try (simp only [upd, neutral] at *; grind)
+  all_goals try exact fun k' h => notif k' (hl k' h)
+
+/-- `task.cancel()` -/
+theorem creq_inv (s : St) (t : Nat) (hi : Inv s) : Inv { s with creq := upd s.creq t true } := by
+  obtain ⟨mpos, noerr, count_le, busy_nodup, ready_nodup, disjoint, lt_next, hold_busy, rel_busy, hold_inj,
+    rel_inj, hold_rel, busy_owned, orphan, rel_ge, cond_pc, pc_cond, cond_nodup, waiters_eq, notif, kept,
+    absent, acq_present⟩ := hi
+  constructor
+  all_goals try assumption
+  · intro k hl
+    apply notif k
+    obtain ⟨u, hm, hc⟩ := hl
+    refine ⟨u, hm, ?_⟩
+    by_cases h : u = t
+    · subst h; simp [upd] at hc
+    · simpa [upd, h] using hc
+
+theorem drainGo_eq (pops : List Nat) : ∀ (s s1 : St) (x : Option Nat), drainGo s pops = some (s1, x) →
+    ∃ p, s1 = { s with pending := p } := by
+  induction pops with
+  | nil =>
+    intro s s1 x h
+    simp only [drainGo] at h
+    split at h
+    · cases h; exact ⟨s.pending, rfl⟩
+    · cases h
+  | cons r rest ih =>
+    intro s s1 x h
+    simp only [drainGo] at h
+    split at h
+    · split at h
+      · obtain ⟨p, hp⟩ := ih _ _ _ h
+        exact ⟨p, by rw [hp]⟩
+      · split at h
+        · cases h; exact ⟨_, rfl⟩
+        · cases h
+    · cases h
+
+theorem beginRound_inv (s s' : St) (t : Nat) (pops : List Nat) (g : Option Nat)
+    (hi : Inv s) (hpc : s.pc t = .start) (h : beginRound s t pops g = some s') : Inv s' := by
+  unfold beginRound at h
+  split at h
+  · split at h
+    · cases h
+      exact neutral_inv s _ t .done hi (Or.inl hpc) (Or.inr (Or.inl rfl)) rfl rfl rfl rfl rfl rfl rfl rfl (fun _ _ => rfl)
+    · cases h
+  · rename_i rd rest hprog
+    split at h
+    · cases h
+    · rename_i s1 r hd
+      obtain ⟨p, hp⟩ := drainGo_eq _ _ _ _ hd
+      split at h
+      · cases h
+        subst hp
+        exact neutral_inv s _ t (.drain r) hi (Or.inl hpc) (Or.inr (Or.inr (Or.inr ⟨r, rfl⟩)))
+          rfl rfl rfl rfl rfl rfl rfl rfl (fun _ _ => rfl)
+      · cases h
+    · rename_i s1 hd
+      obtain ⟨p, hp⟩ := drainGo_eq _ _ _ _ hd
+      subst hp
+      refine acquire_inv { s with pending := p } s' t rd.key g ?_ hpc h
+      exact frame_inv none none s _ hi rfl rfl rfl rfl rfl rfl rfl rfl rfl
+
+theorem endRound_inv (s : St) (t k n : Nat) (rd : Round) (rest : List Round)
+    (hi : Inv s) (hpc : s.pc t = .holding k n) :
+    Inv (endRound s t k n rd rest) ∧ (endRound s t k n rd rest).pc t = .start := by
+  unfold endRound
+  have ho : InvG (some (k, n)) none
+      { s with closed := upd s.closed k (upd (s.closed k) n rd.close), prog := upd s.prog t rest,
+               pc := upd s.pc t .start } :=
+    orphanHold_inv s _ t k n .start hi hpc (Or.inl rfl) rfl rfl rfl rfl rfl rfl rfl rfl (fun _ _ => rfl)
+  dsimp only
+  split
+  · exact ⟨releaseOp_inv _ k n ho, by simp [releaseOp, cleanAll, hostRelease, setHost]; split <;> simp⟩
+  · exact ⟨spawnRel_inv _ k n ho, by simp [spawnRel]⟩
+
+theorem deliverCancel_inv (s : St) (t : Nat) (hi : Inv s) :
+    Inv (deliverCancel { s with creq := upd s.creq t false } t) := by
+  unfold deliverCancel
+  split
+  · rename_i k hpc
+    exact cancelWait_inv s t k hi hpc
+  · rename_i k n hpc
+    apply spawnRel_inv
+    exact orphanHold_inv s _ t k n .cancelled hi hpc (Or.inr rfl) rfl rfl rfl rfl rfl rfl rfl rfl
+      (fun u hu => by simp [upd, hu])
+  · rename_i h1 h2
+    have hpc : neutral (s.pc t) := by
+      simp only at h1 h2
+      unfold neutral
+      cases hp : s.pc t with
+      | start => simp
+      | drain r => simp
+      | cwait k => exact absurd hp (h1 k)
+      | holding k n => exact absurd hp (h2 k n)
+      | done => simp
+      | cancelled => simp
+    exact neutral_inv s _ t .cancelled hi hpc (Or.inr (Or.inr (Or.inl rfl))) rfl rfl rfl rfl rfl rfl rfl rfl
+      (fun u hu => by simp [upd, hu])
+
+theorem stepClient_inv (s s' : St) (t : Nat) (pops : List Nat) (g : Option Nat)
+    (hi : Inv s) (h : stepClient s t pops g = some s') : Inv s' := by
+  unfold stepClient at h
+  split at h
+  · cases h
+  · rename_i hen
+    split at h
+    · split at h
+      · cases h; exact deliverCancel_inv s t hi
+      · cases h
+    · rename_i hc
+      split at h
+      · rename_i hpc; exact beginRound_inv s s' t pops g hi hpc h
+      · rename_i r hpc
+        refine beginRound_inv _ s' t pops g ?_ (by simp) h
+        exact neutral_inv s _ t .start hi (by rw [hpc]; exact Or.inr (Or.inr (Or.inr ⟨r, rfl⟩))) (Or.inl rfl)
+          rfl rfl rfl rfl rfl rfl rfl rfl (fun _ _ => rfl)
+      · rename_i k hpc
+        split at h
+        · have hn : (t, true) ∈ (s.host k).cond := by
+            simp only [clientEnabled, hpc] at hen
+            simp only [Bool.not_eq_true] at hc
+            simpa [hc] using hen
+          exact hostAcquire_inv _ s' t k g (resume_inv s t k hi hpc hn) (by simp [setHost]) h
+        · cases h
+      · rename_i k n hpc
+        split at h
+        · cases h
+        · rename_i rd rest hprog
+          have := endRound_inv s t k n rd rest hi hpc
+          exact beginRound_inv _ s' t pops g this.1 this.2 h
+      · cases h
+      · cases h
+
+/-- **inv_step / inv_fault**: every transition — a task step, `task.cancel()`, a remote close —
+preserves the invariant. -/
+theorem inv_step (s s' : St) (a : Act) (hi : Inv s) (h : step s a = some s') : Inv s' := by
+  have hi0 : Inv { s with evs := [] } := frame_inv none none s _ hi rfl rfl rfl rfl rfl rfl rfl rfl rfl
+  unfold step at h
+  dsimp only at h
+  split at h
+  · exact stepClient_inv _ s' _ _ _ hi0 h
+  · split at h
+    · cases h
+      rename_i r hen
+      have hr : s.relDone r = false := by
+        simp only [relEnabled, Bool.and_eq_true, Bool.not_eq_true', decide_eq_true_eq] at hen
+        exact hen.2
+      have := orphanRel_inv _ r hi0 hr
+      exact releaseOp_inv _ _ _ this
+    · cases h
+  · split at h
+    · cases h; exact hi0
+    · cases h; exact hi0
+    · cases h; exact creq_inv _ _ hi0
+  · cases h
+    exact frame_inv none none s _ hi rfl rfl rfl rfl rfl rfl rfl rfl rfl
+
+/-- states reachable from the initial state of any configuration by any schedule -/
+inductive Reach (M mc nk : Nat) (progs : List (List Round)) : St → Prop
+  | init : Reach M mc nk progs (init M mc nk progs)
+  | step {s s' : St} (a : Act) : Reach M mc nk progs s → step s a = some s' → Reach M mc nk progs s'
+
+theorem inv_reach {M mc nk : Nat} {progs : List (List Round)} (hM : 0 < M) {s : St}
+    (h : Reach M mc nk progs s) : Inv s := by
+  induction h with
+  | init => exact inv_init M mc nk progs hM
+  | step a _ hs ih => exact inv_step _ _ a ih hs
+
+theorem reach_run {M mc nk : Nat} {progs : List (List Round)} (acts : List Act) :
+    ∀ {s s' : St}, Reach M mc nk progs s → run s acts = some s' → Reach M mc nk progs s' := by
+  induction acts with
+  | nil => intro s s' hr h; simp only [run] at h; cases h; exact hr
+  | cons a rest ih =>
+    intro s s' hr h
+    simp only [run] at h
+    split at h
+    · rename_i s1 hs; exact ih (Reach.step a hr hs) h
+    · cases h
+
 end Wpull.Pool
